@@ -29,6 +29,14 @@ func main() {
 		fmt.Fprintln(os.Stderr, "unknown property", id)
 		os.Exit(2)
 	}
+	if child := os.Getenv("VERIF_SCHED_CHILD"); child != "" {
+		if p.SchedChild == nil {
+			fmt.Fprintln(os.Stderr, "no fresh-process scenarios for", id)
+			os.Exit(2)
+		}
+		p.SchedChild(child, os.Getenv("VERIF_SCHED_PREFIX"))
+		os.Exit(0)
+	}
 	if *replay != "" {
 		if p.Replay == nil {
 			fmt.Fprintln(os.Stderr, "no replay for", id)
